@@ -56,6 +56,9 @@ WORDS = ['true', 'false', 'null', 'True', 'FALSE', 'Null', 'nulls', 'truee', '_t
          'and', 'or', 'not', 'in', 'mod', 'andy', 'nota', 'inn', 'i', 'n', 'mode', 'And', 'NOT', 'a_b', 'a__b', 'a__',
          '_', '__', '___', '__a', '_a', '_1', '__1', '_a_', 'x1', 'camelCase', 'snake_case_9', '__init__', 'nullnull']
 
+NONLATIN_WORDS = ['\ufb01le', '\u00b5', '\u00aa', '\u017f', '\u212b', '\uff41b', 'x\u00b2', '\u2167', '\u0434\u0430', '\u4e2d', '\u03a9',
+                  '\u2126', '\u00e5', 'a\u030a', '\u1e9e', '\u00df', '\u0131', '\u0130x', '\u01c4', '\u3392']
+
 _state = {}
 
 
@@ -331,6 +334,40 @@ def job_decimals(wholes):
 
 
 # --------------------------------------------------------------------------
+# the module-level yaql.eval() path: one process-wide engine and a cache of parsed expressions
+# --------------------------------------------------------------------------
+def job_evalpath():
+    """Every string of length <= 3 over {a, blank, tab, newline, no-break space} spelled raw in the three quote
+    styles and evaluated through yaql.eval(), one after the other in ONE process (simplest first): a literal must
+    denote its own text whatever was evaluated before it."""
+    import yaql
+    res = Result()
+    alphabet = ['a', ' ', '\t', '\n', '\u00a0']
+    values = ['']
+    for n in (1, 2, 3):
+        values.extend(''.join(v) for v in itertools.product(alphabet, repeat=n))
+    for v in values:
+        for q in M.STYLES:
+            text = q + v + q
+            core.CURRENT_CASE[0] = {'family': 'evalpath', 'text': text}
+            res.case(('evalpath', text))
+            res.evaluations += 1
+            res.transitions += 1
+            res.nontrivial += 1
+            try:
+                got = yaql.eval(text)
+            except Exception as e:
+                got = ('raised', type(e).__name__)
+            res.outcomes['evalpath: %s' % ('value' if isinstance(got, str) else 'raised')] += 1
+            if not same(got, v):
+                res.fail('evalpath style=%s: wrong value through yaql.eval()' % q, {'family': 'evalpath', 'text': text, 'value': v},
+                         'yaql.eval(%r) returned %r, expected %r (after the shorter literals were evaluated in the same process)'
+                         % (text, got, v), size=len(text))
+    res.sample({'family': 'evalpath', 'texts': ["'a  a'", "'a\ta'"]}, limit=1)
+    return res
+
+
+# --------------------------------------------------------------------------
 # words
 # --------------------------------------------------------------------------
 def job_words():
@@ -354,6 +391,22 @@ def job_words():
             expect = ('rejected',)
         cls = 'none' if m is None else m[0]
         judge(res, 'word', w, expect, {'family': 'word', 'word': w}, 'class=' + cls)
+    # words with letters outside the reference's examples (compatibility characters, other scripts): whether the
+    # lexer takes them as keywords is not documented, but a word it does take as a keyword denotes its own text
+    for w in NONLATIN_WORDS:
+        obs = observe(w, True)
+        res.case(('word-nonlatin', w))
+        res.evaluations += 1
+        res.transitions += 1
+        if obs[0] != 'kw':
+            res.out_of_domain += 1
+            res.outcomes['word: non-latin not a keyword -> %s' % obs[0]] += 1
+            continue
+        res.nontrivial += 1
+        res.outcomes['word: non-latin keyword'] += 1
+        if not (same(obs[1], w) and same(obs[2], w)):
+            res.fail('word class=accepted-keyword: wrong value', {'family': 'word', 'word': w},
+                     'keyword %r denotes %r / evaluates to %r instead of its own text' % (w, obs[1], obs[2]), size=len(w))
     res.sample({'family': 'word', 'words': words[:8]}, limit=1)
     return res
 
@@ -383,11 +436,15 @@ def jobs(tier, seed):
     for i, sl in enumerate(chunks(WHOLE, 6)):
         out.append(('decimal-%d' % i, 'job_decimals', (sl,)))
     out.append(('words', 'job_words', ()))
+    out.append(('evalpath', 'job_evalpath', ()))
     return out
 
 
 def replay(case):
     fam = case['family']
+    if fam == 'evalpath':
+        r = job_evalpath()
+        return {'observed': [f.detail for f in r.failures.values()], 'expected': 'every literal denotes its own text', 'ok': not r.failures}
     if fam == 'spell':
         text = M.quote(case['value'], case['style'])
         expect = ('const', case['value'])
